@@ -105,7 +105,10 @@ func c08(c *Ctx) {
 				readIdx = i
 			}
 		}
-		hasPayload := rem != nil && hasLit(p, call.NLits, true, func(t *core.Term) bool { z, isC := t.Args0Int(); return t.Kind == core.KLt && isC && z == 0 && t.Args[1] == rem })
+		hasPayload := rem != nil && hasLit(p, call.NLits, true, func(t *core.Term) bool {
+			z, isC := t.Args0Int()
+			return t.Kind == core.KLt && isC && z == 0 && t.Args[1] == rem
+		})
 		if hasPayload {
 			last := reads[len(reads)-1]
 			if len(reads) < 2 || strip(last.Args[1]) != strip(rem) {
@@ -377,7 +380,9 @@ func c08defaults(c *Ctx, rd *reader) {
 					}
 				}
 			}
-			is1005 := hasLit(p, len(p.Lits), true, func(t *core.Term) bool { return isEqConst(t, 1005, func(x *core.Term) bool { return x.Kind == core.KParam }) })
+			is1005 := hasLit(p, len(p.Lits), true, func(t *core.Term) bool {
+				return isEqConst(t, 1005, func(x *core.Term) bool { return x.Kind == core.KParam })
+			})
 			if !put && !is1005 {
 				ok, why = false, "FormatCloseMessage does not encode the status code big-endian at the start of the payload"
 			}
